@@ -145,13 +145,13 @@ static void run_zoo(Rng &r)
     // bits: mid.en, mid.leaf.on, many0.on, many1.on, many2.on, top.on, ptr null, ptr_target.on
     int nbits = 8;
     unsigned states = 1u << nbits;
-    std::string cdesc = fmt("zoo placement=%d many=%d ptr=%d%s top=%d toggle=%s leaf ports:", c.enable_placement, c.has_many, c.has_ptr, c.ptr_gated ? "(enabled by toggle)" : "", c.has_top, c.en_name.c_str());
+    std::string cdesc = fmt("zoo placement=%d many=%d ptr=%d%s top=%d toggle=%s%s leaf ports:", c.enable_placement, c.has_many, c.has_ptr, c.ptr_gated ? "(enabled by toggle)" : "", c.has_top, c.en_name.c_str(), c.en_is_int ? fmt("(integer level, on=%d)", c.en_on_value).c_str() : "");
     for(auto &n : c.leaf.order) cdesc += " " + n;
     describe_case(cdesc);
     distinct(hash_str(cdesc));
     sample(jstr(cdesc), 4);
     for(unsigned s = 0; s < states; ++s) {
-        root.mid.en = s & 1; root.mid.leaf.on = s & 2; root.mid.many[0].on = s & 4; root.mid.many[1].on = s & 8; root.mid.many[2].on = s & 16;
+        root.mid.en = (s & 1) ? c.en_on_value : 0; root.mid.leaf.on = s & 2; root.mid.many[0].on = s & 4; root.mid.many[1].on = s & 8; root.mid.many[2].on = s & 16;
         root.top.on = s & 32; root.mid.ptr = (s & 64) ? nullptr : &root.ptr_target; root.ptr_target.on = s & 128;
         char *buf = (char *)calloc(1024, 1);
         std::vector<Rec> got;
@@ -179,6 +179,7 @@ static void run_zoo(Rng &r)
         if(c.ptr_gated && !root.mid.ptr && root.mid.en) count("zoo.null_pointer_with_toggle_on");
         if(c.ptr_gated && root.mid.ptr && !root.mid.en) count("zoo.pruned_pointer_by_toggle");
         if(c.en_name != "en" && c.enable_placement == 1) count("zoo.toggle_name_starts_with_subtree_name");
+        if(c.en_is_int && (c.enable_placement == 1 || c.ptr_gated) && root.mid.en && (root.mid.en & 0xff) == 0) count("zoo.enabled_by_integer_level_multiple_of_256");
         for(auto &x : got) g.insert(x.addr);
         count("zoo.addresses_reported", got.size());
         if(c.enable_placement == 1 && !root.mid.en) count("zoo.pruned_by_sibling_toggle");
@@ -191,6 +192,36 @@ static void run_zoo(Rng &r)
             fail("walk_with_runtime", {fmt("placement_%d", c.enable_placement)}, sdesc, fmt("%zu reported; extra/duplicate '%s', missing '%s'", got.size(), extra.c_str(), miss.c_str()), fmt("%zu addresses", e.size()));
             free(buf);
             break;
+        }
+        // a walk that starts at the object's own table, below a caller-supplied prefix
+        if((s & ~(2u | 32u)) == 0) {      // only the object's own toggle matters here
+            for(int which = 0; which < (c.has_top ? 2 : 1); ++which) {
+                const Leaf &lf = which ? root.top : root.mid.leaf;
+                std::string pre = which ? "/top/" : "/mid/leaf/";
+                char *b2 = (char *)calloc(1024, 1);
+                strcpy(b2, pre.c_str());
+                std::vector<Rec> got2;
+                rtosc::walk_ports(&Leaf::ports, b2, 1024, &got2, walker_cb, true, (void *)&lf);
+                count("zoo.walks_from_object_table");
+                std::multiset<std::string> e2, g2;
+                bool self_on = c.enable_placement != 2 || lf.on;
+                for(auto &n : c.leaf.order) {
+                    if(!self_on && n != "on") continue;
+                    if(n == "arr" || n == "farr") for(int i = 0; i < 8; ++i) e2.insert(pre + n + std::to_string(i));
+                    else e2.insert(pre + c.leaf.pname(n));
+                }
+                if(c.enable_placement == 2 && self_on) e2.insert(pre + "self");
+                if(c.enable_placement == 2 && !self_on) count("zoo.object_table_walk_of_disabled_object");
+                for(auto &x : got2) g2.insert(x.addr);
+                if(strcmp(b2, pre.c_str())) fail("name_buffer_not_restored", {}, sdesc + " walk from the object's table below " + pre, vis(b2), pre);
+                if(g2 != e2) {
+                    std::string miss, extra;
+                    for(auto &x : e2) if(g2.count(x) < e2.count(x)) { miss = x; break; }
+                    for(auto &x : g2) if(e2.count(x) < g2.count(x)) { extra = x; break; }
+                    fail("walk_from_object_table", {fmt("placement_%d", c.enable_placement)}, sdesc + " walk of Leaf::ports below " + pre, fmt("%zu reported; extra/duplicate '%s', missing '%s'", got2.size(), extra.c_str(), miss.c_str()), fmt("%zu addresses", e2.size()));
+                }
+                free(b2);
+            }
         }
         // the runtime object handed to the walker is the object that owns the port
         for(auto &x : got) {
